@@ -1,6 +1,77 @@
-//! C02 — not implemented yet.
+//! C02 — element-wise pipelines compute the steps as written, in order.
+//!
+//! Programs of 0..12 element-wise steps (map, filter, flat_map, key_by, map_values, filter_values,
+//! batch maps, shape-changing maps) over unkeyed / keyed element types, both modes, all partition counts.
+//! Oracle (independent of the model): the real output equals the plain-vector interpretation of the
+//! same steps (`pipe::reference`), as a SEQUENCE; no panic, no error.
+
 use crate::ctx::Ctx;
+use crate::pipe::*;
+
+pub fn corpus() -> Vec<Prog> {
+    let kv = |k: i64, v: i64| V::pair(V::I(k), V::I(v));
+    vec![
+        // the value-only reorder: map_values(+1) then filter_values(even) runs the filter first
+        Prog { shape: Shape::KV, src: vec![kv(0, 1), kv(0, 2)], steps: vec![Step::MapValues(Fn_::Add(1)), Step::FilterValues(Pred::Even)] },
+        // map_values(+1) then a batch function that looks across its slice
+        Prog { shape: Shape::KV, src: vec![kv(0, 1), kv(0, 2), kv(0, 3)], steps: vec![Step::MapValues(Fn_::Add(1)), Step::MapValuesBatches(2, BatchFn::Sumall)] },
+        Prog { shape: Shape::T, src: (1..=7).map(V::I).collect(), steps: vec![Step::Map(Fn_::Add(1)), Step::Filter(Pred::Even), Step::FlatMap(FlatFn::Twice), Step::MapBatches(0, BatchFn::Each(Fn_::Mul(2)))] },
+    ]
+}
 
 pub fn run(cx: &mut Ctx) {
-    cx.notes.push("C02: harness not implemented".to_string());
+    let o = CheckOpts { par_vs_seq: true, vs_reference: true };
+    for p in corpus() {
+        check_prog(cx, &p, &[Mode::Seq], &o);
+    }
+    // exhaustive small scope: every program of <= 2 steps from a fixed menu of 12 element-wise steps
+    // over one keyed input, seq + par 1..4
+    let menu: Vec<Step> = vec![
+        Step::MapValues(Fn_::Add(1)), Step::MapValues(Fn_::Mul(2)), Step::FilterValues(Pred::Even), Step::FilterValues(Pred::Lt(3)),
+        Step::MapValuesBatches(2, BatchFn::Each(Fn_::Neg)), Step::Filter(Pred::Ge(2)), Step::Swapkv, Step::Unkey, Step::Values,
+        Step::Map(Fn_::Dup), Step::FlatMap(FlatFn::Twice), Step::Keys,
+    ];
+    let src: Vec<V> = (0..5).map(|i| V::pair(V::I(i % 2), V::I(i))).collect();
+    let depth = cx.budget(2, 3);
+    let mut progs: Vec<(Shape, Vec<Step>)> = vec![(Shape::KV, vec![])];
+    let mut frontier = progs.clone();
+    for _ in 0..depth {
+        let mut next = vec![];
+        for (sh, st) in &frontier {
+            for s in &menu {
+                if let Some(sh2) = shape_after(*sh, s) {
+                    let mut t = st.clone();
+                    t.push(s.clone());
+                    next.push((sh2, t));
+                }
+            }
+        }
+        progs.extend(next.iter().cloned());
+        frontier = next;
+    }
+    let n = progs.len();
+    for (_, steps) in progs {
+        let p = Prog { shape: Shape::KV, src: src.clone(), steps };
+        check_prog(cx, &p, &[Mode::Seq, Mode::Par(1), Mode::Par(2), Mode::Par(3), Mode::Par(4)], &o);
+    }
+    cx.exhaustive_blocks.push(format!("all element-wise programs of <= {depth} steps from a 12-step menu over a 5-row keyed input x seq + par 1..4 ({n} programs)"));
+
+    // random element-wise programs; chunk functions that look across their slice only sequentially
+    let rounds = cx.budget(500, 12000);
+    for i in 0..rounds {
+        let nonlocal = i % 3 == 0;
+        let opts = GenOpts { max_steps: 12, max_rows: cx.budget(30, 60), barriers: false, joins: false, globals: false, nonlocal_batches: nonlocal };
+        let p = gen_prog(&mut cx.rng, &opts);
+        let has_nonlocal = p.steps.iter().any(|s| matches!(s, Step::MapBatches(_, f) | Step::MapValuesBatches(_, f) if !f.elementwise()));
+        let mut modes = vec![Mode::Seq];
+        if !has_nonlocal {
+            let choices = partition_choices(p.src.len());
+            modes.push(Mode::Par(*cx.rng.pick(&choices)));
+            modes.push(Mode::Par(*cx.rng.pick(&choices)));
+        } else {
+            cx.count("program:has-slice-dependent-batch-fn(seq only)");
+        }
+        if !reorder_inert(&p) { cx.count("program:reorder-pass-active"); }
+        check_prog(cx, &p, &modes, &o);
+    }
 }
